@@ -243,6 +243,134 @@ fn set_soft_cpu_limit(secs: u64) {
 // worker side
 // ------------------------------------------------------------------------------------------
 
+/// Where was the worker when the kernel CPU limit fired? A SIGXCPU handler reports the innermost
+/// crate frame of the interrupted call and whether the time was being spent inside the `rexile`
+/// regex engine below it (`X <frame>\t<0|1>`), then lets the signal kill the process as usual.
+/// Capturing a backtrace allocates, so the handler must not run inside the allocator: the global
+/// allocator of this binary flags "inside malloc/free"; in that case the report is made on the way
+/// out of the allocator. `alarm(3)` is the back-stop should anything in here block.
+mod xcpu {
+    use std::alloc::{GlobalAlloc, Layout, System};
+    use std::sync::atomic::{AtomicBool, AtomicI32, Ordering};
+
+    static IN_ALLOC: AtomicBool = AtomicBool::new(false);
+    static PENDING: AtomicBool = AtomicBool::new(false);
+    static ARMED: AtomicBool = AtomicBool::new(false);
+    static OUT_FD: AtomicI32 = AtomicI32::new(-1);
+
+    pub struct TrackAlloc;
+
+    #[inline(always)]
+    fn leave() {
+        IN_ALLOC.store(false, Ordering::Relaxed);
+        if PENDING.load(Ordering::Relaxed) {
+            report_and_die();
+        }
+    }
+
+    unsafe impl GlobalAlloc for TrackAlloc {
+        unsafe fn alloc(&self, l: Layout) -> *mut u8 {
+            IN_ALLOC.store(true, Ordering::Relaxed);
+            let p = System.alloc(l);
+            leave();
+            p
+        }
+        unsafe fn dealloc(&self, p: *mut u8, l: Layout) {
+            IN_ALLOC.store(true, Ordering::Relaxed);
+            System.dealloc(p, l);
+            leave();
+        }
+        unsafe fn alloc_zeroed(&self, l: Layout) -> *mut u8 {
+            IN_ALLOC.store(true, Ordering::Relaxed);
+            let p = System.alloc_zeroed(l);
+            leave();
+            p
+        }
+        unsafe fn realloc(&self, p: *mut u8, l: Layout, n: usize) -> *mut u8 {
+            IN_ALLOC.store(true, Ordering::Relaxed);
+            let q = System.realloc(p, l, n);
+            leave();
+            q
+        }
+    }
+
+    fn report_and_die() {
+        if !ARMED.swap(false, Ordering::SeqCst) {
+            return;
+        }
+        PENDING.store(false, Ordering::SeqCst);
+        let bt = std::backtrace::Backtrace::force_capture().to_string();
+        let mut in_rexile = false;
+        let mut frame = String::new();
+        for line in bt.lines() {
+            let l = line.trim();
+            if l.starts_with("at ") {
+                continue;
+            }
+            if let Some(pos) = l.find("rust_rule_engine::") {
+                let mut f = l[pos..].to_string();
+                if let Some(h) = f.rfind("::h") {
+                    if f.len() - h == 19 && f[h + 3..].chars().all(|c| c.is_ascii_hexdigit()) {
+                        f.truncate(h);
+                    }
+                }
+                while f.ends_with("::{{closure}}") {
+                    let n = f.len() - "::{{closure}}".len();
+                    f.truncate(n);
+                }
+                if let Some(lt) = f.find('<') {
+                    f.truncate(lt);
+                    while f.ends_with(':') {
+                        f.pop();
+                    }
+                }
+                frame = f;
+                break;
+            }
+            if l.contains("rexile::") {
+                in_rexile = true;
+            }
+        }
+        let msg = format!("\nX {}\t{}\n", frame, if in_rexile { 1 } else { 0 });
+        unsafe {
+            let fd = OUT_FD.load(Ordering::SeqCst);
+            libc::write(fd, msg.as_ptr() as *const libc::c_void, msg.len());
+            libc::signal(libc::SIGXCPU, libc::SIG_DFL);
+            let mut set: libc::sigset_t = std::mem::zeroed();
+            libc::sigemptyset(&mut set);
+            libc::sigaddset(&mut set, libc::SIGXCPU);
+            libc::sigprocmask(libc::SIG_UNBLOCK, &set, std::ptr::null_mut());
+            libc::raise(libc::SIGXCPU);
+            libc::_exit(98);
+        }
+    }
+
+    extern "C" fn on_xcpu(_sig: libc::c_int) {
+        unsafe {
+            libc::alarm(3);
+        }
+        if IN_ALLOC.load(Ordering::Relaxed) {
+            PENDING.store(true, Ordering::SeqCst);
+            return;
+        }
+        report_and_die();
+    }
+
+    /// Install the handler (worker processes only; they are single-threaded).
+    pub fn arm(out_fd: i32) {
+        OUT_FD.store(out_fd, Ordering::SeqCst);
+        ARMED.store(true, Ordering::SeqCst);
+        // resolve the symbolizer's lazy state outside the handler
+        let _ = std::backtrace::Backtrace::force_capture().to_string();
+        unsafe {
+            libc::signal(libc::SIGXCPU, on_xcpu as extern "C" fn(libc::c_int) as libc::sighandler_t);
+        }
+    }
+}
+
+#[global_allocator]
+static GLOBAL: xcpu::TrackAlloc = xcpu::TrackAlloc;
+
 fn read_stdin() -> String {
     use std::io::Read;
     let mut s = String::new();
@@ -259,6 +387,7 @@ fn worker_run(first_pass_s: u64) -> i32 {
     unsafe {
         libc::dup2(quiet::real_stdout_fd(), 2);
     }
+    xcpu::arm(quiet::real_stdout_fd());
     let text = read_stdin();
     let empty = Facts::new();
     let small = small_facts();
@@ -439,16 +568,29 @@ struct DeathRec {
     overflow_msg: bool,
     alloc_msg: bool,
     wall_killed: bool,
+    /// reported by the worker's SIGXCPU handler: (innermost crate frame, time was inside rexile)
+    site: Option<(String, bool)>,
 }
 
 impl DeathRec {
     fn cpu_limit_hit(&self) -> bool {
-        self.signal == Some(libc::SIGXCPU) || (self.signal == Some(libc::SIGKILL) && !self.wall_killed)
+        self.signal == Some(libc::SIGXCPU)
+            || self.signal == Some(libc::SIGALRM)
+            || self.exit == Some(98)
+            || (self.signal == Some(libc::SIGKILL) && !self.wall_killed)
     }
     fn describe(&self) -> String {
         format!(
-            "signal={:?} exit={:?} child_cpu_s={:.1} stack-overflow-message={} allocation-failure-message={}",
-            self.signal, self.exit, self.child_cpu_s, self.overflow_msg, self.alloc_msg
+            "signal={:?} exit={:?} child_cpu_s={:.1} stack-overflow-message={} allocation-failure-message={} at-kill={}",
+            self.signal,
+            self.exit,
+            self.child_cpu_s,
+            self.overflow_msg,
+            self.alloc_msg,
+            match &self.site {
+                Some((f, r)) => format!("{}{}", f, if *r { " (inside the rexile regex engine)" } else { "" }),
+                None => "?".to_string(),
+            }
         )
     }
 }
@@ -527,6 +669,7 @@ fn run_batch(
         let mut open: Option<(usize, usize)> = None;
         let mut finished = false;
         let mut tail = String::new(); // runtime messages after the last S line
+        let mut site: Option<(String, bool)> = None;
         let mut progressed = false;
         for line in text.lines() {
             let mut it = line.splitn(4, ' ');
@@ -537,6 +680,7 @@ fn run_batch(
                         if a < idx.len() && b < NE {
                             open = Some((idx[a], b));
                             tail.clear();
+                            site = None;
                         }
                     }
                 }
@@ -580,6 +724,11 @@ fn run_batch(
                     open = None;
                 }
                 Some("Z") if line == "Z" => finished = true,
+                Some("X") => {
+                    let rest = line[1..].trim_start();
+                    let (f, r) = rest.split_once('\t').unwrap_or((rest, "0"));
+                    site = Some((f.trim().to_string(), r.trim() == "1"));
+                }
                 _ => {
                     if tail.len() < 2000 {
                         tail.push_str(line);
@@ -609,6 +758,7 @@ fn run_batch(
                         overflow_msg: tail.contains("overflowed its stack"),
                         alloc_msg: tail.contains("memory allocation of"),
                         wall_killed: out.wall_killed,
+                        site: site.clone(),
                     }),
                     cpu_us: 0,
                 });
@@ -915,10 +1065,25 @@ fn long_condition_cut(input: &str) -> Option<String> {
     Some(cut)
 }
 
-/// Why is this pair slow / fatal? Tries the cause predicates in order; a predicate explains the
-/// observation only if it holds of the input AND the call returns quickly once the feature is
-/// taken out. Otherwise "unexplained".
-fn explain(bin: &Bin, input: &str, e: usize, bs: &mut BatchStats) -> String {
+const REXILE_CAUSE: &str = "stuck-in-rexile-regex-engine";
+
+/// Why is this pair slow / fatal? For CPU kills the worker says where it was: inside the rexile
+/// regex engine (one root cause: its matcher is super-linear, ~n^3.5 measured, on the crate's
+/// unanchored capture patterns) or in the crate's own code (`in:<innermost crate frame>`). Without
+/// that report the input-shape predicates are tried; one of them explains the observation only if
+/// it holds of the input AND the call returns quickly once the feature is taken out.
+fn explain(bin: &Bin, input: &str, e: usize, d: &DeathRec, bs: &mut BatchStats) -> String {
+    if d.cpu_limit_hit() {
+        if let Some((frame, in_rexile)) = &d.site {
+            if *in_rexile {
+                return REXILE_CAUSE.to_string();
+            }
+            if !frame.is_empty() {
+                let f = frame.strip_prefix("rust_rule_engine::").unwrap_or(frame);
+                return format!("in:{}", f.replace("::", ".").replace(' ', ""));
+            }
+        }
+    }
     if e <= 2 {
         if let Some(cut) = long_condition_cut(input) {
             if returns_quickly(bin, &cut, e, bs) {
@@ -973,7 +1138,7 @@ fn run_case(c: &Case, verbose: bool) -> (Vec<Violation>, Vec<String>) {
                     let mut cause = None;
                     if let Some(PairOut { pr: Pr::Died(d), .. }) = &r {
                         if !d.wall_killed {
-                            cause = Some(explain(b, &input, *e, &mut bs));
+                            cause = Some(explain(b, &input, *e, d, &mut bs));
                         }
                     }
                     (b.clone(), *e, r, cause, bs.harness_errors)
@@ -1292,7 +1457,7 @@ fn soup(rng: &mut Rng, max_tokens: usize) -> String {
 }
 
 fn gen_soup(rng: &mut Rng) -> String {
-    let m = *rng.pick(&[4usize, 12, 40, 200, 900]);
+    let m = *rng.pick(&[4usize, 4, 12, 12, 12, 40, 40, 40, 100, 200, 900]);
     clip(&soup(rng, m), MAX_LEN)
 }
 
@@ -1302,7 +1467,34 @@ fn gen_template(rng: &mut Rng) -> String {
     let a = soup(rng, 6);
     let b = soup(rng, 6);
     let c = soup(rng, 4);
-    let s = match rng.below(16) {
+    const NUMS: &[&str] = &[
+        "0", "1", "5", "00", "307445734561825861", "999999999999999999", "5124095576030431", "18446744073709551615",
+        "18446744073709551616", "9223372036854775807", "4294967296", "-1", "1.5", "99999999999999999999999",
+    ];
+    const UNITS: &[&str] = &["ms", "sec", "seconds", "min", "minutes", "hour", "hours", "days", "m", ""];
+    let s = match rng.below(19) {
+        16 => format!(
+            "e: T from stream(\"s\") over window({} {}, {})",
+            rng.pick(NUMS),
+            rng.pick(UNITS),
+            rng.pick(&["sliding", "tumbling", "session", &c])
+        ),
+        17 => format!(
+            "rule \"R\" {{ when e: T from stream(\"s\") over window({} {}, {}) && e.x == {} then y = 1; }}",
+            rng.pick(NUMS),
+            rng.pick(UNITS),
+            rng.pick(&["sliding", "tumbling"]),
+            a
+        ),
+        18 => format!(
+            "rule \"R\" salience {} {{ when x == {} then ScheduleRule({}, \"n\"); y = {} {} {}; }}",
+            rng.pick(NUMS),
+            rng.pick(NUMS),
+            rng.pick(NUMS),
+            rng.pick(NUMS),
+            rng.pick(&["+", "-", "*", "/", "%"]),
+            rng.pick(NUMS)
+        ),
         0 => format!("rule R {{ when {} then y = 1; }}", a),
         1 => format!("rule \"R\" {{ when x == {} then y = 1; }}", a),
         2 => format!("rule \"R\" {{ when x == 1 then {}; }}", a),
@@ -1587,7 +1779,8 @@ fn record_panic(sh: &Shared, e: usize, p: &PanicRec, input: &Arc<String>, profil
 /// small quota: whether it ends below or above 120 s, the verdict of the run is the same (it is
 /// either no violation or a hit of that open finding); the pinned witness of the finding itself is
 /// always re-run in full.
-fn schedule_isolated(sh: &Arc<Shared>, st: &mut Stats, input: Arc<String>, e: usize, gen: &'static str, first: &'static str, slow: bool) {
+fn schedule_isolated(sh: &Arc<Shared>, st: &mut Stats, input: Arc<String>, e: usize, gen: &'static str, first: &'static str, death: DeathRec) {
+    let slow = death.cpu_limit_hit();
     let sh2 = sh.clone();
     let over_cap = sh.iso_count.load(Ordering::SeqCst) >= sh.iso_cap;
     if over_cap {
@@ -1609,7 +1802,7 @@ fn schedule_isolated(sh: &Arc<Shared>, st: &mut Stats, input: Arc<String>, e: us
         }
         if slow {
             if let Some(b) = bins.first() {
-                let cause = explain(b, &input, e, &mut bs);
+                let cause = explain(b, &input, e, &death, &mut bs);
                 let sig = format!("C05|cpu>120s|{}|{}", sig_entry(e), cause);
                 if cause != "unexplained" && sh2.open_sigs.contains(&sig) {
                     let quota = sh2
@@ -1640,7 +1833,7 @@ fn schedule_isolated(sh: &Arc<Shared>, st: &mut Stats, input: Arc<String>, e: us
             if let Some(PairOut { pr: Pr::Died(d), .. }) = &r {
                 died = true;
                 if !d.wall_killed {
-                    cause = Some(explain(b, &input, e, &mut bs));
+                    cause = Some(explain(b, &input, e, d, &mut bs));
                 }
             }
             outs.push((b.name, r, cause));
@@ -1699,6 +1892,7 @@ fn process_batch(sh: &Arc<Shared>, st: &mut Stats, items: &[(u16, Arc<String>)],
                 let en = ENTRIES[o.entry];
                 st.count(&format!("pairs::{}", profile));
                 st.max(&format!("max::cpu_ms::{}::{}", profile, en), o.cpu_us / 1000);
+                st.add(&format!("cpu_ms_by_generator::{}", gens[i]), o.cpu_us / 1000);
                 match &o.pr {
                     Pr::Val(code) => {
                         let k = match code {
@@ -1722,10 +1916,14 @@ fn process_batch(sh: &Arc<Shared>, st: &mut Stats, items: &[(u16, Arc<String>)],
                         engaged = true;
                         if d.cpu_limit_hit() {
                             st.count(&format!("first_pass_exceeded::{}::{}", profile, en));
+                            st.add(&format!("cpu_ms_by_generator::{}", gens[i]), FIRST_PASS_S * 1000);
+                            if let Some((f, r)) = &d.site {
+                                st.count(&format!("slow_call_sites::{}{}", f, if *r { " -> rexile" } else { "" }));
+                            }
                         } else {
                             st.count(&format!("batch_child_killed_by_input::{}::{}", profile, en));
                         }
-                        schedule_isolated(sh, st, input.clone(), o.entry, gens[i], profile, d.cpu_limit_hit());
+                        schedule_isolated(sh, st, input.clone(), o.entry, gens[i], profile, d.clone());
                     }
                 }
             }
@@ -1906,54 +2104,94 @@ fn explore_impl(cli: &Cli, st: &mut Stats) {
     }
     st.add("systematic_inputs", systematic.len() as u64);
 
-    // ---- run: systematic items are dealt round-robin to the shards, then each shard generates ----
-    let per = |q: u64, t: u64| cli.n(q, t) as usize;
+    // ---- run: work units (slices of the systematic list, then seeded generator streams) are pulled
+    //      from one queue by the worker threads; the SET of inputs depends on the seed only ----
+    let total = |q: u64, t: u64| cli.n(q, t) as usize;
     let plan: Vec<(&'static str, usize)> = vec![
-        ("raw-bytes", per(60, 4000)),
-        ("token-soup", per(60, 4000)),
-        ("template-soup", per(220, 16000)),
-        ("mutation", per(300, 24000)),
-        ("bracket-nesting", per(60, 4000)),
-        ("chain-short", per(60, 3000)),
+        ("raw-bytes", total(6_000, 150_000)),
+        ("token-soup", total(1_500, 20_000)),
+        ("template-soup", total(8_000, 200_000)),
+        ("mutation", total(8_000, 200_000)),
+        ("bracket-nesting", total(1_000, 15_000)),
+        ("chain-short", total(1_500, 30_000)),
     ];
+    let nstreams: usize = if quick { 96 } else { 768 };
+    enum Work {
+        Sys(usize, usize),
+        Stream(usize),
+    }
+    let mut work: Vec<Work> = Vec::new();
+    {
+        // the full-length chains are the expensive ones: small slices, first in the queue
+        let mut i = 0;
+        while i < systematic.len() {
+            let step = if systematic[i].2 == "chain-full-length" { 2 } else { 32 };
+            let mut j = i;
+            while j < systematic.len() && j - i < step && systematic[j].2 == systematic[i].2 {
+                j += 1;
+            }
+            work.push(Work::Sys(i, j));
+            i = j;
+        }
+    }
+    for j in 0..nstreams {
+        work.push(Work::Stream(j));
+    }
+    let next = AtomicUsize::new(0);
     let nthreads = cli.threads;
     let systematic = &systematic;
     let corpus = &corpus;
     let shr = &sh;
-    shards(cli, nthreads, st, |shard, rng, st| {
+    let work = &work;
+    let next = &next;
+    let plan = &plan;
+    shards(cli, nthreads, st, |_shard, _rng, st| {
         let mut b = Batcher {
             sh: shr,
             items: Vec::new(),
             gens: Vec::new(),
-            size: 64,
+            size: 48,
         };
-        for (k, (mask, s, g)) in systematic.iter().enumerate() {
-            if k % nthreads == shard {
-                b.push(st, *mask, s.clone(), g);
+        loop {
+            let k = next.fetch_add(1, Ordering::SeqCst);
+            if k >= work.len() {
+                break;
             }
-        }
-        b.flush(st);
-        for (g, n) in &plan {
-            if !gen_enabled(g) {
-                continue;
-            }
-            for _ in 0..*n {
-                if cli.expired() {
-                    st.count("stopped_by_time_budget");
-                    break;
+            match work[k] {
+                Work::Sys(i, j) => {
+                    for (mask, s, g) in &systematic[i..j] {
+                        b.push(st, *mask, s.clone(), g);
+                    }
+                    b.flush(st);
                 }
-                let s = match *g {
-                    "raw-bytes" => gen_raw(rng),
-                    "token-soup" => gen_soup(rng),
-                    "template-soup" => gen_template(rng),
-                    "mutation" => gen_mutation(rng, corpus),
-                    "bracket-nesting" => gen_nesting(rng, corpus),
-                    _ => gen_chain_short(rng),
-                };
-                b.push(st, ALL_MASK, s, g);
+                Work::Stream(j) => {
+                    let mut rng = Rng::derive(cli.seed, 1000 + j as u64);
+                    for (g, n) in plan.iter() {
+                        if !gen_enabled(g) {
+                            continue;
+                        }
+                        // stream j gets its share of the generator's total
+                        let share = n / nstreams + if j < n % nstreams { 1 } else { 0 };
+                        for _ in 0..share {
+                            if cli.expired() {
+                                st.count("stopped_by_time_budget");
+                                break;
+                            }
+                            let s = match *g {
+                                "raw-bytes" => gen_raw(&mut rng),
+                                "token-soup" => gen_soup(&mut rng),
+                                "template-soup" => gen_template(&mut rng),
+                                "mutation" => gen_mutation(&mut rng, corpus),
+                                "bracket-nesting" => gen_nesting(&mut rng, corpus),
+                                _ => gen_chain_short(&mut rng),
+                            };
+                            b.push(st, ALL_MASK, s, g);
+                        }
+                    }
+                    b.flush(st);
+                }
             }
         }
-        b.flush(st);
     });
     if !quick && gen_enabled("chain-full-length") {
         st.exhaustive.push(format!(
@@ -1963,6 +2201,7 @@ fn explore_impl(cli: &Cli, st: &mut Stats) {
         ));
     }
 
+    st.max("max::phase_wall_s::generation_done", cli.start.elapsed().as_secs());
     // ---- isolated re-runs under the full watchdog ----
     let handles: Vec<_> = std::mem::take(&mut *sh.iso.lock().unwrap_or_else(|x| x.into_inner()));
     let mut deaths: BTreeMap<String, Violation> = BTreeMap::new();
@@ -2030,6 +2269,7 @@ fn explore_impl(cli: &Cli, st: &mut Stats) {
         st.violation(v);
     }
 
+    st.max("max::phase_wall_s::isolated_reruns_done", cli.start.elapsed().as_secs());
     // ---- panics: one shrunk, re-confirmed witness per signature ----
     let found = std::mem::take(&mut *sh.found.lock().unwrap_or_else(|x| x.into_inner()));
     st.add("distinct_panic_signatures", found.len() as u64);
@@ -2088,6 +2328,7 @@ fn explore_impl(cli: &Cli, st: &mut Stats) {
         }
         out
     });
+    st.max("max::phase_wall_s::shrinking_done", cli.start.elapsed().as_secs());
     for (v, bs, count) in shrunk {
         note_batch_stats(st, bs);
         st.add(&format!("panics::{}", v.sig), count);
